@@ -5,14 +5,16 @@ every vertex and edge of every returned graph is judged by the plain-Python orac
 members are compared for exact equality with the independent reference generator defined there.
 """
 import collections
+import concurrent.futures
+import concurrent.futures.process
+import multiprocessing as mp
 import os
 import shutil
 import tempfile
+import traceback
 
 from vf import c12_family as F
-from vf.common import Pool, seed
-
-MOD = "vf.c12_run"
+from vf.common import GUARD, HarnessError, nproc, seed
 
 
 def _groups(tier):
@@ -25,6 +27,39 @@ def _groups(tier):
     return groups, family
 
 
+def _imap(groups):
+    """Spread the groups over spawned workers (like vf.common.Pool, but a worker that dies - killed, out of memory - is an
+    explicit harness error instead of a hang)."""
+    n = nproc()
+    if n <= 1:
+        from vf import c12_run
+
+        for g in groups:
+            yield c12_run.run_group(g)
+        return
+    env = {k: v for k, v in os.environ.items() if k.startswith(("VERIF_", "JAX_", "XLA_", "PYTHONHASHSEED", GUARD))}
+    from vf.c12_run import run_group, worker_init
+
+    ex = concurrent.futures.ProcessPoolExecutor(n, mp_context=mp.get_context("spawn"), initializer=worker_init, initargs=(env,))
+    try:
+        futs = [ex.submit(run_group, g) for g in groups]
+        for f in concurrent.futures.as_completed(futs):
+            try:
+                yield f.result()
+            except concurrent.futures.process.BrokenProcessPool as e:
+                raise HarnessError(f"a worker process died (killed / out of memory): {e}")
+            except Exception as e:  # noqa
+                raise HarnessError("worker failed:\n" + "".join(traceback.format_exception(type(e), e, e.__traceback__))[-4000:])
+    finally:
+        procs = list((getattr(ex, "_processes", None) or {}).values())
+        ex.shutdown(wait=False, cancel_futures=True)
+        for p in procs:
+            try:
+                p.terminate()
+            except Exception:  # noqa
+                pass
+
+
 def run(tier, rep):
     groups, family = _groups(tier)
     cache = tempfile.mkdtemp(prefix=f"verif-{os.getpid()}-c12-")
@@ -35,23 +70,22 @@ def run(tier, rep):
     per_kind = collections.Counter()
     shown = collections.Counter()
     try:
-        with Pool() as pool:
-            for out in pool.imap(MOD, "run_group", groups):
-                tot["groups"] += 1
-                tot["calls"] += out["calls"]
-                tot["horizons"] += out["horizons"]
-                tot["landed"] += out["landed"]
-                tot["aug_cases"] += out["aug_cases"]
-                tot["identity_aug"] += out["identity_aug"]
-                ncount.update(out["n"])
-                vcount.update(out["violation_count"])
-                per_kind[out["id"].split(".")[2]] += 1
-                for v in out["violations"]:
-                    shown[v["signature"]] += 1
-                    if shown[v["signature"]] <= 3:
-                        rep.violation(v["signature"], v["what"], replay=v["replay"])
-                if out["sample"] is not None and (tot["groups"] % max(1, len(groups) // 5) == 1):
-                    rep.sample(out["sample"])
+        for out in _imap(groups):
+            tot["groups"] += 1
+            tot["calls"] += out["calls"]
+            tot["horizons"] += out["horizons"]
+            tot["landed"] += out["landed"]
+            tot["aug_cases"] += out["aug_cases"]
+            tot["identity_aug"] += out["identity_aug"]
+            ncount.update(out["n"])
+            vcount.update(out["violation_count"])
+            per_kind[out["id"].split(".")[2]] += 1
+            for v in out["violations"]:
+                shown[v["signature"]] += 1
+                if shown[v["signature"]] <= 3:
+                    rep.violation(v["signature"], v["what"], replay=v["replay"])
+            if out["sample"] is not None and (tot["groups"] % max(1, len(groups) // 5) == 1):
+                rep.sample(out["sample"])
     finally:
         os.environ.pop("VERIF_C12_JAXCACHE", None)
         shutil.rmtree(cache, ignore_errors=True)
